@@ -112,9 +112,9 @@ def print_axioms(module, theorems):
         os.unlink(path)
     out = {}
     text = p.stdout + p.stderr
-    for m in re.finditer(r"'([^']+)' depends on axioms: \[([^\]]*)\]", text):
+    for m in re.finditer(r"'(\S+)' depends on axioms: \[([^\]]*)\]", text):
         out[m.group(1)] = [a.strip() for a in m.group(2).split(",") if a.strip()]
-    for m in re.finditer(r"'([^']+)' does not depend on any axioms", text):
+    for m in re.finditer(r"'(\S+)' does not depend on any axioms", text):
         out[m.group(1)] = []
     missing = [t for t in theorems if t not in out]
     return out, missing, text
